@@ -6,18 +6,18 @@
 
   Statement by statement, as the code is today.  In particular:
 
-  * `STANAG4609_SEI.unpack` assigns attributes as it goes and never resets the ones a shorter path does not
-    reach (`unregdata`, `status`, `seconds`, `nanoseconds`, `time`, `stanag` survive from an earlier use);
-    `microseconds` is never written at all.  `seconds = float(useconds) / 1.0e6` is binary64 arithmetic
-    (`Acra.Py.Float`), `time = datetime.fromtimestamp(seconds)` is modelled for a UTC local time zone
-    (the sandbox; trusted base) with CPython's conversion: microseconds = round-half-even of the binary64
-    product `frac · 10^6`, carry into the seconds, `ValueError` for a year above 9999.
-  * `NAL.unpack` builds a NEW `STANAG4609_SEI` for an SEI NAL and leaves `sei` alone otherwise; `offset`
-    is never written by `unpack` (it belongs to the container).
-  * `H264.unpack`, under Python 3, calls `buf.decode()` (strict UTF-8: `UnicodeDecodeError`, a `ValueError`)
-    and hands two `str` objects to the search helper.  The helper returns `[]` when the text has fewer
-    characters than the 4-character pattern; otherwise its skip-table loop executes `skip[pattern[0]] = …`
-    with a `str` index: `TypeError`.  No NAL is ever produced; `nals` is never written.
+  * `STANAG4609_SEI.unpack` first resets `unregdata`, `status`, `seconds`, `microseconds`, `nanoseconds`,
+    `time`, `stanag` (fix b3ec533: nothing decoded from an earlier buffer survives), then assigns attributes
+    as it goes.  `seconds = float(useconds) / 1.0e6` is binary64 arithmetic (`Acra.Py.Float`),
+    `time = datetime.fromtimestamp(seconds)` is modelled for a UTC local time zone (the sandbox; trusted
+    base) with CPython's conversion: microseconds = round-half-even of the binary64 product `frac · 10^6`,
+    carry into the seconds, `ValueError` for a year above 9999.
+  * `NAL.unpack` first sets `sei = None` (fix 4a5c19a), builds a NEW `STANAG4609_SEI` for an SEI NAL;
+    `offset` is never written by `unpack` (it belongs to the container).
+  * `H264.unpack` first sets `nals = []` (fix 4a5c19a); under Python 3 it then calls `buf.decode()` (strict
+    UTF-8: `UnicodeDecodeError`, a `ValueError`) and hands two `str` objects to the search helper.  The helper
+    returns `[]` when the text has fewer characters than the 4-character pattern; otherwise its skip-table loop
+    executes `skip[pattern[0]] = …` with a `str` index: `TypeError`.  No NAL is ever produced.
 -/
 import Acra.Py.Struct
 import Acra.Py.Float
@@ -63,7 +63,7 @@ structure SEI where
   unregdata : Bool
   status : Option Nat
   seconds : Option Rat            -- a binary64 value
-  microseconds : Option Nat       -- never written by `unpack`
+  microseconds : Option Nat       -- only ever reset to `None` by `unpack`
   nanoseconds : Option Nat
   time : Option DT
   stanag : Bool
@@ -80,33 +80,41 @@ def seiUseconds (ms1 ms2 ms3 ms4 : Nat) : Nat := (ms1 <<< 48) + (ms2 <<< 32) + (
 def seiSeconds (us : Nat) : Rat := fdiv (ofNat us) (SEI_US_PER_S : Rat)
 
 /-- the part of `STANAG4609_SEI.unpack` after the ten fields of an unregistered-data payload were read.
-    Every exit builds the object from the prior state `t` in one step (the attributes assigned so far, in
-    the order the code assigns them: payloadtype, payloadsize, unregdata, status, seconds, nanoseconds,
-    time, stanag); nested record updates are avoided only because they make proof terms explode. -/
-def SEI.signed (t : SEI) (pt ps sig1 sig2 st ms1 f1 ms2 f2 ms3 f3 ms4 : Nat) : SEI × R Unit :=
+    Since the reset at the top of `unpack` every attribute except `payloadtype`/`payloadsize` has a value
+    that does not depend on the prior state, so each exit is a complete record (written out in full: nested
+    record updates make proof terms explode). -/
+def SEI.signed (pt ps sig1 sig2 st ms1 f1 ms2 f2 ms3 f3 ms4 : Nat) : SEI × R Unit :=
   if sig1 = SEI_SIG1 ∧ sig2 = SEI_SIG2 ∧ f1 = SEI_FIX ∧ f2 = SEI_FIX2 ∧ f3 = SEI_FIX3 then
     match fromTimestampF (seiSeconds (seiUseconds ms1 ms2 ms3 ms4)) with
     | .error e =>
-      ({ t with payloadtype := some pt, payloadsize := some ps, unregdata := true, status := some st,
-                seconds := some (seiSeconds (seiUseconds ms1 ms2 ms3 ms4)),
-                nanoseconds := some ((ms3 <<< 16) + ms4) }, .error e)
+      ({ payloadtype := some pt, payloadsize := some ps, unregdata := true, status := some st,
+         seconds := some (seiSeconds (seiUseconds ms1 ms2 ms3 ms4)), microseconds := none,
+         nanoseconds := some ((ms3 <<< 16) + ms4), time := none, stanag := false }, .error e)
     | .ok dt =>
-      ({ t with payloadtype := some pt, payloadsize := some ps, unregdata := true, status := some st,
-                seconds := some (seiSeconds (seiUseconds ms1 ms2 ms3 ms4)),
-                nanoseconds := some ((ms3 <<< 16) + ms4), time := some dt, stanag := true }, .ok ())
-  else ({ t with payloadtype := some pt, payloadsize := some ps, unregdata := true, status := some st }, .ok ())
+      ({ payloadtype := some pt, payloadsize := some ps, unregdata := true, status := some st,
+         seconds := some (seiSeconds (seiUseconds ms1 ms2 ms3 ms4)), microseconds := none,
+         nanoseconds := some ((ms3 <<< 16) + ms4), time := some dt, stanag := true }, .ok ())
+  else
+    ({ payloadtype := some pt, payloadsize := some ps, unregdata := true, status := some st, seconds := none,
+       microseconds := none, nanoseconds := none, time := none, stanag := false }, .ok ())
 
 def SEI.unpack (t : SEI) (buf : Bytes) : SEI × R Unit :=
   match structUnpack SEI_unpack_fmt0 (slice buf 0 2) with
-  | .error e => (t, .error e)
+  | .error e =>
+    -- only the reset has happened: `payloadtype`, `payloadsize` are still the old ones
+    ({ t with unregdata := false, status := none, seconds := none, microseconds := none, nanoseconds := none,
+              time := none, stanag := false }, .error e)
   | .ok v0 =>
     if v0.getD 0 0 = SEI_UNREG_DATA then
       match structUnpackFrom SEI_unpack_fmt1 (buf.drop 2) 0 with
       | .error e =>
-        ({ t with payloadtype := some (v0.getD 0 0), payloadsize := some (v0.getD 1 0), unregdata := true }, .error e)
-      | .ok v => SEI.signed t (v0.getD 0 0) (v0.getD 1 0) (v.getD 0 0) (v.getD 1 0) (v.getD 2 0) (v.getD 3 0)
+        ({ payloadtype := some (v0.getD 0 0), payloadsize := some (v0.getD 1 0), unregdata := true, status := none,
+           seconds := none, microseconds := none, nanoseconds := none, time := none, stanag := false }, .error e)
+      | .ok v => SEI.signed (v0.getD 0 0) (v0.getD 1 0) (v.getD 0 0) (v.getD 1 0) (v.getD 2 0) (v.getD 3 0)
                    (v.getD 4 0) (v.getD 5 0) (v.getD 6 0) (v.getD 7 0) (v.getD 8 0) (v.getD 9 0)
-    else ({ t with payloadtype := some (v0.getD 0 0), payloadsize := some (v0.getD 1 0) }, .ok ())
+    else
+      ({ payloadtype := some (v0.getD 0 0), payloadsize := some (v0.getD 1 0), unregdata := false, status := none,
+         seconds := none, microseconds := none, nanoseconds := none, time := none, stanag := false }, .ok ())
 
 /-! ### ADTS -/
 
@@ -144,14 +152,14 @@ def NAL.fresh : NAL := { type := 0, size := 0, sei := none, offset := 0 }
 
 def NAL.unpack (t : NAL) (buf : Bytes) : NAL × R Unit :=
   match structUnpackFrom NAL_unpack_fmt0 buf NAL_HEADER_LEN with
-  | .error e => (t, .error e)
+  | .error e => ({ t with sei := none }, .error e)              -- `self.sei = None` comes first
   | .ok v =>
     let ty := v.getD 0 0 &&& NAL_TYPE_MASK
     if ty = NAL_TYPE_SEI then
       match SEI.unpack SEI.fresh (buf.drop (NAL_HEADER_LEN + 1)) with
-      | (_, .error e) => ({ t with type := ty, size := buf.length }, .error e)
+      | (_, .error e) => ({ t with type := ty, size := buf.length, sei := none }, .error e)
       | (sei, .ok _) => ({ t with type := ty, size := buf.length, sei := some sei }, .ok ())
-    else ({ t with type := ty, size := buf.length }, .ok ())
+    else ({ t with type := ty, size := buf.length, sei := none }, .ok ())
 
 /-! ### strict UTF-8 (what `bytes.decode()` accepts) -/
 
@@ -201,13 +209,14 @@ def horspoolStr (n m : Nat) : R (List Nat) :=
   else if PY3 ∧ 1 < m then .error .type
   else .error .fuel
 
-def H264.unpack (t : H264) (buf : Bytes) : H264 × R Bool :=
+def H264.unpack (_t : H264) (buf : Bytes) : H264 × R Bool :=
+  -- `self.nals = []` comes first: every exit leaves the empty list
   match utf8Len buf with
-  | none => (t, .error .value)
+  | none => ({ nals := [] }, .error .value)
   | some n =>
     match horspoolStr n NAL_HEADER_TEXT_LEN with
-    | .error e => (t, .error e)
-    | .ok [] => (t, .ok true)      -- `for idx, offset in enumerate(offsets)`: no iteration
-    | .ok (_ :: _) => (t, .error .fuel)   -- never: the helper returns only the empty list
+    | .error e => ({ nals := [] }, .error e)
+    | .ok [] => ({ nals := [] }, .ok true)      -- `for idx, offset in enumerate(offsets)`: no iteration
+    | .ok (_ :: _) => ({ nals := [] }, .error .fuel)   -- never: the helper returns only the empty list
 
 end Acra.Model.Extra
